@@ -1,17 +1,15 @@
 #!/bin/bash
-# usage: tools/with_patch.sh PATCH.diff CNN [CNN...]   -- applies patch to /repo, runs quick checks, reverts. Never leaves /repo dirty.
+# usage: tools/with_patch.sh PATCH.diff CNN [CNN...]
+# Runs the quick checks against a scratch worktree of /repo with PATCH applied (never touches /repo or /verif outputs).
 set -u
-patch="$1"; shift
-cd /repo || exit 2
-if ! git diff --quiet; then echo "repo dirty, refusing"; exit 2; fi
-git apply "$patch" || { echo "patch does not apply"; exit 2; }
-trap 'git -C /repo checkout -- . ; rm -rf /verif/scratch_replays' EXIT
+patch="$(readlink -f "$1")"; shift
+wt=$(mktemp -d /var/tmp/wt.XXXXXX); out=$(mktemp -d /var/tmp/out.XXXXXX)
+git -C /repo worktree add -q --detach "$wt" HEAD || exit 2
+trap 'git -C /repo worktree remove --force "$wt" >/dev/null 2>&1; rm -rf "$wt" "$out"' EXIT
+git -C "$wt" apply "$patch" || { echo "patch does not apply"; exit 2; }
 cd /verif
 for id in "$@"; do
-  cp -r replays /verif/scratch_replays_backup 2>/dev/null
-  out=$(./check "$id" --tier ${TIER:-quick} 2>&1); rc=$?
-  echo "== $id rc=$rc"; echo "$out" | grep -E "^(VIOLATION|KNOWN|SUMMARY|HARNESS)" | cut -c1-${CUT:-260} | head -${HEAD:-8}
-  # discard replay files created by the mutant run
-  rm -rf replays; mv /verif/scratch_replays_backup replays
-  git -C /verif checkout -- evidence 2>/dev/null
+  o=$(VERIF_REPO="$wt" VERIF_OUT="$out" ./check "$id" --tier ${TIER:-quick} 2>&1); rc=$?
+  echo "== $id rc=$rc"; echo "$o" | grep -E "^(VIOLATION|KNOWN|SUMMARY|HARNESS)" | cut -c1-${CUT:-260} | head -${HEAD:-8}
+  [ $rc -eq 2 ] && echo "$o" | tail -15
 done
